@@ -26,8 +26,9 @@ from . import keys as K
 from .sched import Scheduler, count_steps
 
 OPS = ["ensure_kid", "thumbprint", "as_dict_pub", "as_dict", "keyset_new", "get_kid", "sign", "sign2", "sign_ks", "verify", "verify2", "encrypt", "encrypt2", "decrypt", "decrypt2",
-       "decrypt_zip", "decrypt_zip_over", "verify_forged", "ks_export", "ks_verify", "ks_sign"]
-CRYPTO = {"sign", "sign2", "sign_ks", "verify", "verify2", "encrypt", "encrypt2", "decrypt", "decrypt2", "decrypt_zip", "decrypt_zip_over", "verify_forged", "ks_export", "ks_verify", "ks_sign"}
+       "decrypt_zip", "decrypt_zip_over", "verify_forged", "ks_export", "ks_verify", "ks_sign",
+       "sign_raw", "verify_raw_unlisted", "reg_ecdh", "reg_foreign_name"]
+CRYPTO = {"sign", "sign2", "sign_ks", "verify", "verify2", "encrypt", "encrypt2", "decrypt", "decrypt2", "decrypt_zip", "decrypt_zip_over", "verify_forged", "ks_export", "ks_verify", "ks_sign", "sign_raw", "verify_raw_unlisted", "reg_ecdh", "reg_foreign_name"}
 ZIP_SMALL = b"compressed plaintext " * 40
 ZIP_OVER = 256_000 + 300
 _ZTOK: dict = {}
@@ -71,6 +72,14 @@ class World:
         self.token3 = R.jws_compact(R.jdump({"alg": self.alg, "kid": "set-0"}), b"signed for the set", self.alg, self.ks3_jwks[0])
         self.token = R.jws_compact(R.jdump({"alg": self.alg}), b"signed payload", self.alg, self.jwk)
         self.token2 = R.jws_compact(R.jdump({"alg": self.alg, "cty": "two"}), b"the second signed payload", self.alg, self.jwk)
+        # one JWE registry object shared by calls of different algorithm families (a service-wide registry)
+        from joserfc import jwe as _jwe
+        self.reg = _jwe.JWERegistry(algorithms=["ECDH-ES+A128KW", "dir", "A128GCM"])
+        self.reg_ec = J.fresh_jkey(J.pub(K.get("EC:P-256", 1)))
+        self.reg_oct = J.fresh_jkey(K.get("oct128", 0))
+        self.raw_hdr = {"alg": self.alg, "b64": False, "crit": ["b64"]}
+        self.token_raw = R.jws_compact(R.jdump(self.raw_hdr), b"unencoded_payload-1", self.alg, self.jwk, b64=False)
+        self.other_alg = {"ES256": "ES384", "RS256": "PS256", "EdDSA": "ES256", "HS256": "HS384"}[self.alg]
         h1, _, s1 = self.token.split(".")
         self.forged = h1 + "." + self.token2.split(".")[1] + "." + s1        # token one's header and signature over token two's payload
         self.jalg = "ECDH-ES" if kind.startswith("EC") else ("A256KW" if kind == "oct256" else "RSA-OAEP")
@@ -109,6 +118,26 @@ class World:
                     return ("forged", jws.deserialize_compact(w.forged, w.pub, algorithms=[w.alg]).payload)
                 except BadSignatureError:
                     return ("forged", None)
+        elif name == "sign_raw":
+            def f():
+                from joserfc import rfc7797
+                return ("jws_raw", rfc7797.serialize_compact(dict(w.raw_hdr), b"message_raw", w.key, algorithms=[w.alg]))
+        elif name == "verify_raw_unlisted":
+            def f():
+                from joserfc import rfc7797
+                from joserfc.errors import UnsupportedAlgorithmError
+                try:        # the caller's list does not name the token's algorithm
+                    return ("unlisted", rfc7797.deserialize_compact(w.token_raw, w.pub, algorithms=[w.other_alg]).payload)
+                except UnsupportedAlgorithmError:
+                    return ("unlisted", None)
+        elif name == "reg_ecdh":
+            def f(): return ("jwe_reg", jwe.encrypt_compact({"alg": "ECDH-ES+A128KW", "enc": "A128GCM", "apu": "QWxpY2U"}, b"plaintext", w.reg_ec, registry=w.reg))
+        elif name == "reg_foreign_name":
+            def f():        # "apu" belongs to the ECDH algorithms: under strict checking a dir header carrying it is refused
+                try:
+                    return ("foreign", jwe.encrypt_compact({"alg": "dir", "enc": "A128GCM", "apu": "QWxpY2U"}, b"plaintext", w.reg_oct, registry=w.reg))
+                except ValueError:
+                    return ("foreign", None)
         elif name == "ks_export":
             def f(): return ("jwks", w.ks3.as_dict(private=False) if w.jwk["kty"] != "oct" else w.ks3.as_dict())
         elif name == "ks_verify":
@@ -174,6 +203,20 @@ class World:
             except Exception as e:  # noqa
                 return f"produced token does not decrypt: {e}"
         if kind == "plaintext": return None if v == b"secret plaintext" else "decrypted plaintext differs"
+        if kind == "foreign": return None if v is None else "a header name of another algorithm family was accepted under strict checking"
+        if kind == "jwe_reg":
+            try:
+                _, pt = R.jwe_decrypt(v, K.get("EC:P-256", 1))
+                return None if pt == b"plaintext" else "token plaintext differs"
+            except Exception as e:  # noqa
+                return f"produced token does not decrypt: {e}"
+        if kind == "unlisted": return None if v is None else "a token was verified with an algorithm the call's own list does not name"
+        if kind == "jws_raw":
+            try:
+                hdr, body = R.jws_verify_compact(v, J.pub(self.jwk))
+                return None if body == b"message_raw" else "token payload differs"
+            except Exception as e:  # noqa
+                return f"produced token does not verify: {e}"
         if kind == "payload3": return None if v == b"signed for the set" else "verified payload differs"
         if kind == "jwks":
             kids = sorted(d.get("kid") for d in v["keys"])
